@@ -104,7 +104,7 @@ SPECS = {
     "C02": dict(modules=["Ovldverif.Props.C02"], streams=["table_static", "fn_static", "levels"], oracle="C02"),
     "C03": dict(modules=["Ovldverif.Props.C03"], streams=["fn", "fn_static"], oracle="C03"),
     "C04": dict(modules=["Ovldverif.Props.C04"], streams=["table_static", "table_rich", "fn", "dep_f"], oracle="C04"),
-    "C05": dict(modules=["Ovldverif.Props.C05"], streams=["table_static", "table_rich", "fn", "fn_types"], oracle="C05"),
+    "C05": dict(modules=["Ovldverif.Props.C05", "Ovldverif.Props.C16"], streams=["table_static", "table_rich", "fn", "fn_types", "graph"], oracle="C05"),
     "C06": dict(modules=["Ovldverif.Props.C06"], streams=["table_static", "fn_static", "levels", "levels_rich"], oracle="C06"),
     "C07": dict(modules=["Ovldverif.Props.C07"], streams=["table_static", "fn_static", "levels"], oracle="C07"),
     "C20": dict(modules=["Ovldverif.Props.C20"], streams=["table_rich", "fn", "dep_f"], oracle="C20"),
